@@ -7,6 +7,16 @@ TRUSTED_COMMON = [
 ]
 
 PROPS = {
+    "C03": dict(
+        level_text="Proof: the array model of heap.go keeps the heap invariant and the multiset of elements under every operation (sift lemmas, permutation lemmas), so Peek/Pop are extremal for every strict weak order and Sort is an ordered permutation; the unrepaired Delete-without-re-sift is a recorded known finding with its negation witness and an exact partial theorem. Model tied to the code by exhaustive small-scope + seeded correspondence; the Lean multiset/extremality monitor judges the implementation's own answers.",
+        level_note="Lean kernel + standard axioms; comparator assumed to be a strict weak order (decidable hypothesis, shown for the comparators used); array model hand-written.",
+        groups=["C03"], quick_shards=16,
+        observers=("size", "peek", "values", "isempty"),
+        rule="all sequences of <= 4 (quick) / 5 (thorough) mutations from {Push 1..4, Delete 1..4, Pop, Clear, Convert, Merge, Meld} with observers after each step and a final drain, both < and >; FromSlice/Sort on all slices up to length 6/7 over 4 values for <, > and by-key-with-ties; seeded random histories (length <= 120, four comparators); non-trivial = heap reached >= 4 elements (depth 3) or held duplicates, or a Sort of >= 3 elements; distinct = distinct op sequence",
+        exhaustive_part="all mutation sequences up to the tier's length bound over the 13-symbol alphabet; all input slices up to the bound for FromSlice/Sort",
+        trusted=["comparators in the harness and in the driver are the same four functions (lt, gt, by-key x/10)"],
+        assumptions=["comparator is a strict weak order", "int elements stand for every comparable T"],
+    ),
     "C05": dict(
         level_text="Proof: every history of the slice-backed and of the linked queue model yields exactly the abstract FIFO's answers (refinement, by induction over histories); the models are tied to the code by an exhaustive small-scope + seeded correspondence run, and the Lean FIFO monitor judges the implementation's own answers.",
         level_note="Lean kernel + propext/Quot.sound/Classical.choice; models hand-written (list.DList at pointer level); tie = differential run on generated histories.",
